@@ -69,7 +69,7 @@ fn check_instant_inner(z: &Zone, ns: i128) -> CaseResult {
         want
     );
     ensure!(
-        (info.dst() == Dst::Yes) == want.dst,
+        (info.dst() == Dst::Yes) == want.dst && info.dst().is_dst() == want.dst && info.dst().is_std() != want.dst,
         "dst-flag",
         "{} at {ts}: dst {:?} want {}",
         z.label,
@@ -102,6 +102,22 @@ fn check_instant_inner(z: &Zone, ns: i128) -> CaseResult {
         zd.offset(),
         zd.datetime()
     );
+    // the same three facts as strftime reports them (%z, %:z, %Z)
+    {
+        let a = want.off.abs();
+        let sgn = if want.off < 0 { '-' } else { '+' };
+        let (z1, z2) = if a % 60 != 0 {
+            (format!("{sgn}{:02}{:02}{:02}", a / 3600, a / 60 % 60, a % 60), format!("{sgn}{:02}:{:02}:{:02}", a / 3600, a / 60 % 60, a % 60))
+        } else {
+            (format!("{sgn}{:02}{:02}", a / 3600, a / 60 % 60), format!("{sgn}{:02}:{:02}", a / 3600, a / 60 % 60))
+        };
+        let got = zd.strftime("%z|%:z").to_string();
+        ensure!(got == format!("{z1}|{z2}"), "strftime-offset", "{} at {ts}: strftime(%z|%:z) = {got:?} want \"{z1}|{z2}\"", z.label);
+        if !(z.label.starts_with("fixed:") || z.label == "utc") {
+            let got = zd.strftime("%Z").to_string();
+            ensure!(got == want.abbr, "strftime-abbreviation", "{} at {ts}: strftime(%Z) = {got:?} want {:?}", z.label, want.abbr);
+        }
+    }
     Ok(())
 }
 
@@ -377,7 +393,10 @@ fn test_posix(c: &PosixCase, cx: &mut Cx) -> CaseResult {
     // A daylight period of zero length (both transitions at the same instant, well inside the
     // year) is not a clamping matter: the data prescribes standard time at every instant.
     let zero_length = p.rule.is_some()
-        && [1999i64, 2000, 2001, 2004, 2023, 2024, c.year].iter().all(|&y| {
+        // in every kind of year (1996..=2023 holds all 14 combinations of leap year and
+        // weekday of January 1st) and in the years around the probe: a rule that is zero-length
+        // in some years only changes shape from year to year and belongs to the unjudged class
+        && (1996i64..=2023).chain([c.year - 1, c.year, c.year + 1]).all(|y| {
             let tr = p.year_transitions(y);
             let (ys, ye) = (crate::refmodel::refcal::jan1(y) * 86400, crate::refmodel::refcal::jan1(y + 1) * 86400);
             tr.len() == 2 && tr[0].0 == tr[1].0 && tr[0].0 - 200_000 > ys && tr[0].0 + 200_000 < ye
@@ -414,6 +433,71 @@ fn test_posix(c: &PosixCase, cx: &mut Cx) -> CaseResult {
     check_instant(&z, ns)
 }
 
+// --- TZif files without any transition: the footer governs every instant ---------------------------
+
+#[derive(Serialize, Deserialize, Debug, Clone)]
+struct NoTransCase {
+    rule_sel: u16,
+    /// local time types in the file: 0 = [std], 1 = [std, dst], 2 = ["-00" placeholder, std, dst],
+    /// 3 = [std, dst, an unused third type]
+    shape: u8,
+    year: i64,
+    which: u8,
+    delta_ns: i64,
+}
+
+fn strat_no_trans() -> BoxedStrategy<NoTransCase> {
+    let delta = prop_oneof![
+        4 => prop_oneof![Just(0i64), Just(-1), Just(1), Just(-500_000_000), Just(-1_000_000_000), Just(1_000_000_000)],
+        2 => -90_000_000_000_000i64..=90_000_000_000_000,
+    ];
+    let year = prop_oneof![3 => 1900i64..=2100, 2 => -9998i64..=9998, 1 => prop_oneof![Just(-9998i64), Just(9998), Just(1970), Just(1969)]];
+    (any::<u16>(), 0u8..4, year, 0u8..2, delta).prop_map(|(rule_sel, shape, year, which, delta_ns)| NoTransCase { rule_sel, shape, year, which, delta_ns }).boxed()
+}
+
+fn test_no_trans(c: &NoTransCase, cx: &mut Cx) -> CaseResult {
+    let rules: Vec<&str> = zones::POSIX_STRINGS.iter().copied().collect();
+    let rule = rules[zones::pick(c.rule_sel, rules.len())];
+    let Some(p) = reftz::parse_posix(rule) else { return Ok(()) };
+    if !p.is_tame(8 * 86400) {
+        cx.tolerate("year-spilling-rule");
+        return Ok(());
+    }
+    let mut types: Vec<(String, i32, bool)> = vec![];
+    if c.shape == 2 {
+        types.push(("-00".to_string(), 0, false));
+    }
+    types.push((p.std.abbr.clone(), p.std.off, false));
+    if let (Some(r), true) = (&p.rule, c.shape >= 1) {
+        types.push((r.dst.abbr.clone(), r.dst.off, true));
+    }
+    if c.shape == 3 {
+        types.push(("XTRA".to_string(), 4321, false));
+    }
+    let bytes = crate::tzfiles::build_tzif(&types, &[], rule);
+    let rz = reftz::parse_tzif(&bytes).ok_or_else(|| Failure::new("HARNESS-PANIC", "generated TZif does not parse in the reference reader"))?;
+    let tz = match jiff::tz::TimeZone::tzif("Verif/NoTransitions", &bytes) {
+        Ok(tz) => tz,
+        Err(e) => fail!("tzif-rejects-well-formed", "a TZif file without transitions, types {types:?} and footer {rule:?} is refused: {e}"),
+    };
+    let southern = p.rule.as_ref().map_or(false, |_| p.lookup(crate::refmodel::refcal::jan1(2001) * 86400 + 86400 * 10).dst);
+    cx.class_if(southern, "daylight-time-in-january");
+    cx.class_if(p.rule.is_some(), "footer-with-rule");
+    let z = Zone { label: format!("notrans:{rule}"), tz, rz, bytes: None, probes: vec![], has_footer: true, explicit: 0 };
+    let tr = p.year_transitions(c.year);
+    let ns = if tr.is_empty() {
+        crate::refmodel::refcal::jan1(c.year) as i128 * NS_PER_DAY + c.delta_ns as i128
+    } else {
+        tr[c.which as usize % tr.len()].0 as i128 * NS_PER_SEC + c.delta_ns as i128
+    };
+    if ns <= TS_MIN_NS || ns > TS_MAX_NS {
+        cx.tolerate("instant-out-of-range");
+        return Ok(());
+    }
+    cx.nt_if(!tr.is_empty() && c.delta_ns.abs() <= 1_000_000_000);
+    check_instant(&z, ns)
+}
+
 pub fn property() -> Property {
     Property {
         id: "C03",
@@ -431,11 +515,13 @@ pub fn property() -> Property {
             Box::new(Sweep { name: "c03.synthetic", run: run_synthetic, replay: replay_zi }),
             Box::new(Prop { name: "c03.generated", quick: 2_400_000, thorough: 30_000_000, strategy: strat_zone_probe, test: test_generated }),
             Box::new(Prop { name: "c03.posix_gen", quick: 1_200_000, thorough: 10_000_000, strategy: strat_posix_case, test: test_posix }),
+            Box::new(Prop { name: "c03.no_transitions", quick: 200_000, thorough: 4_000_000, strategy: strat_no_trans, test: test_no_trans }),
         ],
         floors: |rec| {
             rec.floor("c03.generated:within-1s-of-transition", "c03.generated:cases", 0.30);
             rec.floor("c03.generated:rule-territory", "c03.generated:cases", 0.05);
             rec.floor("c03.posix_gen:tame", "c03.posix_gen:cases", 0.30);
+            rec.floor("c03.no_transitions:daylight-time-in-january", "c03.no_transitions:cases", 0.10);
         },
     }
 }
